@@ -21,7 +21,9 @@ Open Scope Z_scope.
 
 Definition ns (sec nsec : Z) : Z := sec * 1000000000 + nsec.
 
-Definition value_of_key (k : key) : list value := [VZ (k_id k); VZ (k_val k); VZ (k_nb k); VZ (k_na k)].
+(* the fifth field: do the key's validity times still carry a monotonic clock reading (1)?  The model's
+   times are readings of one clock; the implementation must judge validity on the monotonic clock. *)
+Definition value_of_key (k : key) : list value := [VZ (k_id k); VZ (k_val k); VZ (k_nb k); VZ (k_na k); VZ 1].
 
 Definition value_of_obs (b : obs) : value :=
   match b with
@@ -51,12 +53,18 @@ Fixpoint all_some {A B} (f : A -> option B) (l : list A) : option (list B) :=
 (* what the implementation did on op o, read from the case file *)
 Definition obs_of_value (o : op) (v : value) : option obs :=
   match o, v with
-  | OCur g _ t, VL [VZ id; VZ vid; VZ nb; VZ na] =>
+  | OCur g _ t, VL [VZ id; VZ vid; VZ nb; VZ na; VZ _] =>
       Some (BCur g t {| k_id := id; k_val := vid; k_nb := nb; k_na := na |})
-  | OGet g id t, VL [VZ 1; VZ id'; VZ vid; VZ nb; VZ na] =>
+  | OGet g id t, VL [VZ 1; VZ id'; VZ vid; VZ nb; VZ na; VZ _] =>
       Some (BGet g t id (Some {| k_id := id'; k_val := vid; k_nb := nb; k_na := na |}))
   | OGet g id t, VL [VZ 0] => Some (BGet g t id None)
   | _, _ => None end.
+
+Definition out_mono (v : value) : bool :=
+  match v with
+  | VL [VZ _; VZ _; VZ _; VZ _; VZ m] => m =? 1
+  | VL [VZ 1; VZ _; VZ _; VZ _; VZ _; VZ m] => m =? 1
+  | _ => true end.
 
 Fixpoint obs_list (ops : list op) (vs : list value) : option (list obs) :=
   match ops, vs with
@@ -92,7 +100,7 @@ Fixpoint lsn_build (handed : list Z) (steps outs : list value) : option (list ls
       | None => None
       | Some ids =>
           let mk := match st with
-                    | VL [VZ 0; VZ _] => Some (LKe thi, LObs thi None (negb (ans =? 0)) ids)
+                    | VL [VZ 0; VZ _] | VL [VZ 0; VZ _; VZ _] => Some (LKe thi, LObs thi None (negb (ans =? 0)) ids)
                     | VL [VZ 1; VZ _; VZ _; VZ c] =>
                         let kid := nth (Z.to_nat c) handed (-1) in
                         Some (LReq thi kid, LObs thi (Some kid) (negb (ans =? 0)) ids)
@@ -120,13 +128,29 @@ Fixpoint lobs_all_agree (e o : list lobs) : bool :=
 
 Definition lock_entry_ok (v : value) : bool :=
   match v with VL [VB _; VZ 1] => true | _ => false end.
+Fixpoint bytes_of_string (s : string) : list Z :=
+  match s with
+  | EmptyString => []
+  | String c r => Z.of_nat (Ascii.nat_of_ascii c) :: bytes_of_string r
+  end.
+(* the rules and methods that the source check must have reported on (a rule that is no
+   longer evaluated is a failure, not a pass) *)
+Definition lock_required : list string :=
+  ["Current"; "Get"; "generateNext"; "state-touched-only-by-Provider"; "no-other-lock-operations";
+   "no-closures-over-state"; "monotonic-reading-preserved"].
+Definition lock_has (entries : list value) (name : string) : bool :=
+  existsb (fun v => match v with VL [VB b; VZ _] => list_eqb Z.eqb b (bytes_of_string name) | _ => false end) entries.
 
 Definition glue_C12 (k : string) (a o : list value) : option verdict :=
   if is k "prov.valid" then
     match a with
     | [VZ nbs; VZ nbn; VZ nas; VZ nan; VZ ts; VZ tn] =>
         let kk := {| k_id := 0; k_val := 0; k_nb := ns nbs nbn; k_na := ns nas nan |} in
-        Some (functional [vbool (is_valid_at kk (ns ts tn))] o true)
+        (* oracle: "within its validity period" = NotBefore <= t <= NotAfter *)
+        Some (functional [vbool (is_valid_at kk (ns ts tn))] o
+                (match o with
+                 | [VZ v] => Bool.eqb (negb (v =? 0)) ((ns nbs nbn <=? ns ts tn) && (ns ts tn <=? ns nas nan))
+                 | _ => false end))
     | _ => None end
   else if is k "prov.hist" then
     match a, o with
@@ -137,8 +161,8 @@ Definition glue_C12 (k : string) (a o : list value) : option verdict :=
             | Some bs =>
                 if monob t0 ops then
                   match history t0 ops with
-                  | Some (_, exp) => Some (functional [VL (map value_of_obs exp)] o (C12_ok bs))
-                  | None => Some (functional [VZ (-1)] o (C12_ok bs))
+                  | Some (_, exp) => Some (functional [VL (map value_of_obs exp)] o (C12_ok (BCur 0 t0 (key_one t0) :: bs) && forallb out_mono outs))
+                  | None => Some (functional [VZ (-1)] o (C12_ok (BCur 0 t0 (key_one t0) :: bs) && forallb out_mono outs))
                   end
                 else None
             | None =>
@@ -157,8 +181,8 @@ Definition glue_C12 (k : string) (a o : list value) : option verdict :=
             | Some bs =>
                 if monob t0 ops then
                   match history t0 ops with
-                  | Some (_, exp) => Some (functional [VL (map value_of_obs exp)] o (C12_long_ok bs))
-                  | None => Some (functional [VZ (-1)] o (C12_long_ok bs))
+                  | Some (_, exp) => Some (functional [VL (map value_of_obs exp)] o (C12_long_ok bs && forallb out_mono outs))
+                  | None => Some (functional [VZ (-1)] o (C12_long_ok bs && forallb out_mono outs))
                   end
                 else None
             | None => Some (relational false true)
@@ -172,7 +196,8 @@ Definition glue_C12 (k : string) (a o : list value) : option verdict :=
         | Some gs =>
             let bs := groups_obs gs in
             match new_provider t0 with
-            | Some s => Some (relational (groups_ok s t0 gs) (C12_ok bs))
+            | Some s => Some (relational (groups_ok s t0 gs)
+                                (C12_ok bs && forallb (fun g => match g with VL l => forallb out_mono l | _ => true end) gso))
             | None => None end
         | None => Some (relational false true)
         end
@@ -190,7 +215,9 @@ Definition glue_C12 (k : string) (a o : list value) : option verdict :=
     | _, _ => None end
   else if is k "prov.lock" then
     match o with
-    | [VL entries] => Some (relational (forallb lock_entry_ok entries && negb (Nat.eqb (length entries) 0)) true)
+    | [VL entries] =>
+        let ok := forallb lock_entry_ok entries && forallb (lock_has entries) lock_required in
+        Some (relational ok ok)
     | _ => None end
   else None.
 
